@@ -315,6 +315,44 @@ _sodium_runtime_intel_cpu_features(CPUFeatures * const cpu_features)
     return 0;
 }
 
+#ifdef SODIUM_VERIF
+/*
+ * Verification hook (compiled only with -DSODIUM_VERIF): restrict the
+ * detected CPU features to a subset, so that every implementation the build
+ * contains can be selected and exercised on the same host.
+ * Mask bits: 1 sse2, 2 sse3, 4 ssse3, 8 sse41, 16 avx, 32 avx2, 64 avx512f,
+ * 128 pclmul, 256 aesni, 512 rdrand.  The mask can only remove features.
+ */
+# include <stdlib.h>
+# include "private/implementations.h"
+
+static void
+_sodium_verif_apply_mask(CPUFeatures * const cpu_features,
+                         const unsigned long mask)
+{
+    cpu_features->has_sse2    &= (int) ((mask >> 0) & 1UL);
+    cpu_features->has_sse3    &= (int) ((mask >> 1) & 1UL);
+    cpu_features->has_ssse3   &= (int) ((mask >> 2) & 1UL);
+    cpu_features->has_sse41   &= (int) ((mask >> 3) & 1UL);
+    cpu_features->has_avx     &= (int) ((mask >> 4) & 1UL);
+    cpu_features->has_avx2    &= (int) ((mask >> 5) & 1UL);
+    cpu_features->has_avx512f &= (int) ((mask >> 6) & 1UL);
+    cpu_features->has_pclmul  &= (int) ((mask >> 7) & 1UL);
+    cpu_features->has_aesni   &= (int) ((mask >> 8) & 1UL);
+    cpu_features->has_rdrand  &= (int) ((mask >> 9) & 1UL);
+}
+
+static void
+_sodium_verif_apply_env_mask(CPUFeatures * const cpu_features)
+{
+    const char *s = getenv("SODIUM_VERIF_CPU_MASK");
+
+    if (s != NULL && *s != 0) {
+        _sodium_verif_apply_mask(cpu_features, strtoul(s, NULL, 0));
+    }
+}
+#endif
+
 int
 _sodium_runtime_get_cpu_features(void)
 {
@@ -322,6 +360,9 @@ _sodium_runtime_get_cpu_features(void)
 
     ret &= _sodium_runtime_arm_cpu_features(&_cpu_features);
     ret &= _sodium_runtime_intel_cpu_features(&_cpu_features);
+#ifdef SODIUM_VERIF
+    _sodium_verif_apply_env_mask(&_cpu_features);
+#endif
     _cpu_features.initialized = 1;
 
     return ret;
@@ -398,3 +439,34 @@ sodium_runtime_has_rdrand(void)
 {
     return _cpu_features.has_rdrand;
 }
+
+#ifdef SODIUM_VERIF
+/*
+ * Re-run feature detection, keep only the features in `mask` (the
+ * environment mask is ignored here) and let every primitive pick its
+ * implementation again.  Not thread-safe; meant for single-threaded
+ * differential test harnesses.
+ */
+int sodium_verif_set_cpu_mask(unsigned long mask);
+
+int
+sodium_verif_set_cpu_mask(unsigned long mask)
+{
+    int ret = -1;
+
+    ret &= _sodium_runtime_arm_cpu_features(&_cpu_features);
+    ret &= _sodium_runtime_intel_cpu_features(&_cpu_features);
+    _sodium_verif_apply_mask(&_cpu_features, mask);
+    _cpu_features.initialized = 1;
+    _crypto_pwhash_argon2_pick_best_implementation();
+    _crypto_generichash_blake2b_pick_best_implementation();
+    _crypto_onetimeauth_poly1305_pick_best_implementation();
+    _crypto_scalarmult_curve25519_pick_best_implementation();
+    _crypto_stream_chacha20_pick_best_implementation();
+    _crypto_stream_salsa20_pick_best_implementation();
+    _crypto_aead_aegis128l_pick_best_implementation();
+    _crypto_aead_aegis256_pick_best_implementation();
+
+    return ret;
+}
+#endif
